@@ -43,8 +43,10 @@ def base_market(name):
         m['CCC'] = [(d, None, None) if i < k else (d, o, c) for i, (d, o, c) in enumerate(m['CCC'])]
     if name == 'gap':
         i = len(PRE)
-        m['BBB'] = [r for k, r in enumerate(m['BBB']) if k not in (i + 2, i + 3, i + 6)]
-        m['AAA'] = [r for k, r in enumerate(m['AAA']) if k not in (i + 4,)]
+        # same first row, last row and row count for AAA and BBB, but different missing days; CCC misses three
+        m['BBB'] = [r for k, r in enumerate(m['BBB']) if k not in (i + 2, i + 6)]
+        m['AAA'] = [r for k, r in enumerate(m['AAA']) if k not in (i + 3, i + 5)]
+        m['CCC'] = [r for k, r in enumerate(m['CCC']) if k not in (i + 1, i + 2, i + 7)]
     return m
 
 
